@@ -261,6 +261,15 @@ def walk_blocks(u):
     return out
 
 
+def wnorm(ft, fr):
+    """sqrt(sum (f_j / friction_j)^2) without Python's OverflowError on huge values"""
+    t = 0.0
+    for x, w in zip(ft, fr):
+        q = x / w
+        t += q * q
+    return math.sqrt(t)
+
+
 def finite(*xs):
     return all(x == x and abs(x) != math.inf for x in xs)
 
@@ -308,7 +317,7 @@ def admissible_oracle(u, out):
                 if not ok_hyp:
                     continue
                 fN = f[i]
-                tn = math.sqrt(sum((f[i + j] / fr[j - 1]) ** 2 for j in range(1, dim)))
+                tn = wnorm(f[i + 1:i + dim], fr)
                 sc = max(abs(fN), tn, 1e-300)
                 if not (fN >= 0):
                     bad.append(("c11:elliptic-normal-negative", "elliptic normal force %r < 0 (state %d, dim %d)" % (fN, s[i], dim)))
@@ -387,7 +396,12 @@ def misc_oracle(line, out):
         mat, vec = x[:nr * nc], x[nr * nc:]
         for c in range(nc):
             terms = [mat[r * nc + c] * vec[r] for r in range(nr)]
-            ref = math.fsum(terms)
+            try:
+                ref = math.fsum(terms)
+            except (OverflowError, ValueError):
+                continue
+            if not finite(ref):
+                continue
             sc = sum(abs(t) for t in terms) + 1e-300
             if abs(o[c] - ref) > 1e-12 * sc:
                 return ("c11:mulMatTVec", "mju_mulMatTVec entry %d = %r, J'f = %r" % (c, o[c], ref))
@@ -499,7 +513,7 @@ def scene_oracle(d):
             dim, fr, mu = c["dim"], c["friction"], c["mu"]
             stats["elliptic"] = stats.get("elliptic", 0) + 1
             fN = f[i]
-            tn = math.sqrt(sum((f[i + j] / fr[j - 1]) ** 2 for j in range(1, dim)))
+            tn = wnorm(f[i + 1:i + dim], fr)
             if fN < -tol:
                 bad.append(("c11:elliptic-normal-negative", "contact %d: normal force %r < 0" % (d["id"][i], fN)))
             if tn > fN + tol:
@@ -519,7 +533,10 @@ def scene_oracle(d):
     J = d["J"]
     for c in range(nv):
         terms = [J[r * nv + c] * f[r] for r in range(nefc)]
-        ref = math.fsum(terms)
+        try:
+            ref = math.fsum(terms)
+        except (OverflowError, ValueError):
+            continue
         sc = sum(abs(t) for t in terms) + 1e-300
         if abs(d["qfrc_constraint"][c] - ref) > 1e-9 * max(sc, 1e-6):
             bad.append(("c11:qfrc_constraint", "dof %d: qfrc_constraint = %r, J'f = %r" % (c, d["qfrc_constraint"][c], ref)))
@@ -572,6 +589,9 @@ def run_scenes(ctx, drv, impl, nmodels, label="engine scenes"):
                 stats_tot[k] = stats_tot.get(k, 0) + v
             ctx.count(("scene", info["model"], info["state"], info["solver"], info["cone"], ctx.seed), nontrivial=d["nefc"] > 0)
             for key, what in bad:
+                if key == "c11:elliptic-outside-cone" and info["noslip"] > 0:
+                    # the noslip pass re-solves the friction rows with solveQCQP on the unregularised A: same root cause
+                    key, what = QCQP_KEY, "after the noslip pass (solveQCQP on the unregularised block): " + what
                 nfail += 1
                 if nfail <= 6:
                     ctx.oracle_failure(key, what, {"scene": info, "seed": ctx.seed, "tier": ctx.tier,
